@@ -19,17 +19,17 @@ Require Import Grits.Base Grits.ModeDefs Grits.Modes Grits.STypes Grits.Forms Gr
                Grits.proofs.TypingVerdict Grits.proofs.Equivariance Grits.proofs.DeclPerm Grits.proofs.EquivarianceTypes Grits.proofs.TypePerm.
 Require Import Coq.Sorting.Permutation.
 
-Theorem verdict_invariant_partial r r' rf rf' p : bijection r r' -> bijection rf rf' ->
+Theorem verdict_invariant_partial r r' rf rf' p : bijection r r' -> bijection rf rf' -> r "" = "" ->
   (accepts p <-> accepts (ren_program r rf p)).
 Proof.
-  intros Hr Hf. rewrite !tc_verdict_alg. now apply (typing_equivariant teq_alg r r' rf rf').
+  intros Hr Hf E0. rewrite !tc_verdict_alg. now apply (typing_equivariant teq_alg r r' rf rf').
 Qed.
 
 (* one direction needs injectivity only *)
 Theorem verdict_preserved_by_injective_renaming r rf p :
-  (forall a b, r a = r b -> a = b) -> (forall a b, rf a = rf b -> a = b) ->
+  (forall a b, r a = r b -> a = b) -> (forall a b, rf a = rf b -> a = b) -> r "" = "" ->
   accepts p -> accepts (ren_program r rf p).
-Proof. intros Hr Hf. rewrite !tc_verdict_alg. now apply typing_equivariant_chan. Qed.
+Proof. intros Hr Hf E0. rewrite !tc_verdict_alg. now apply typing_equivariant_chan. Qed.
 
 Theorem verdict_invariant_perm p p' : decl_perm p p' -> (accepts p <-> accepts p').
 Proof. intros H. rewrite !tc_verdict_alg. now apply typing_perm_iff. Qed.
